@@ -4,6 +4,7 @@ package main
 // composition of per-function summaries. See DESIGN.md section 1.3.
 
 import (
+	"go/constant"
 	"fmt"
 	"go/token"
 	"go/types"
@@ -491,6 +492,28 @@ func (fi *FnInfo) trackPhis() {
 			}
 		}
 	}
+	// boolean phis with a constant edge: the value of a short-circuit expression kept in a variable
+	// (`ok := a && b && (c || d); if !ok {…}`) — which constant flowed in decides the later branch
+	for _, b := range fi.Fn.Blocks {
+		for _, in := range b.Instrs {
+			p, ok := in.(*ssa.Phi)
+			if !ok {
+				break
+			}
+			if !isBoolType(p.Type()) {
+				continue
+			}
+			hasK := false
+			for _, e := range p.Edges {
+				if _, ok := boolConst(e); ok {
+					hasK = true
+				}
+			}
+			if hasK && len(fi.phiIdx) < 8 {
+				fi.phiIdx[p] = len(fi.phiIdx)
+			}
+		}
+	}
 	// a phi fed by a tracked phi carries the same knowledge on (a failure variable accumulated over several steps:
 	// `var failure error; if a {failure = e1}; if b {failure = e2}; return failure`)
 	for changed := true; changed; {
@@ -596,6 +619,19 @@ func nilTestedPath(cond ssa.Value) (string, bool) {
 	return d, true
 }
 
+func isBoolType(t types.Type) bool {
+	b, ok := t.Underlying().(*types.Basic)
+	return ok && b.Kind() == types.Bool
+}
+
+func boolConst(v ssa.Value) (bool, bool) {
+	k, ok := v.(*ssa.Const)
+	if !ok || k.Value == nil || k.Value.Kind() != constant.Bool {
+		return false, false
+	}
+	return constant.BoolVal(k.Value), true
+}
+
 // enter updates the knowledge about the tracked phis of block t when it is
 // entered from block from.
 func (fi *FnInfo) enter(t, from *ssa.BasicBlock, m uint64) uint64 {
@@ -625,6 +661,21 @@ func (fi *FnInfo) enter(t, from *ssa.BasicBlock, m uint64) uint64 {
 			continue
 		}
 		e := p.Edges[pi]
+		if isBoolType(p.Type()) {
+			// 1: known false, 2: known true
+			if k, ok := boolConst(e); ok {
+				if k {
+					m |= 2 << sh
+				} else {
+					m |= 1 << sh
+				}
+			} else if q, ok := e.(*ssa.Phi); ok {
+				if qi, ok := fi.phiIdx[q]; ok {
+					m |= ((m >> uint(32+2*qi)) & 3) << sh
+				}
+			}
+			continue
+		}
 		if isNilConst(e) {
 			m |= 1 << sh
 		} else if fi.nonNil(e, from) {
@@ -659,6 +710,11 @@ func (fi *FnInfo) infeasible(cond ssa.Value, truth bool, m uint64) bool {
 	case *ssa.UnOp:
 		if x.Op == token.NOT {
 			return fi.infeasible(x.X, !truth, m)
+		}
+	case *ssa.Phi:
+		if idx, ok := fi.phiIdx[x]; ok && isBoolType(x.Type()) {
+			k := (m >> uint(32+2*idx)) & 3
+			return (k == 1 && truth) || (k == 2 && !truth)
 		}
 	case *ssa.BinOp:
 		var o ssa.Value
@@ -971,6 +1027,24 @@ func (fi *FnInfo) classify(r *ssa.Return, st state, mode Mode) (int, *ssa.Call, 
 		}
 		if c, ok := vv.(*ssa.Call); ok {
 			return clMaybe, c, Mode{Kind: mBool, Want: mode.Want != neg}, condLabel(v, mode.Want)
+		}
+		// a tracked boolean variable whose value on this path is known
+		if p, ok := vv.(*ssa.Phi); ok {
+			fi.trackPhis()
+			if idx, tracked := fi.phiIdx[p]; tracked && isBoolType(p.Type()) {
+				switch (st.m >> uint(32+2*idx)) & 3 {
+				case 1: // false
+					if (false != neg) == mode.Want {
+						return clSuccess, nil, Mode{}, ""
+					}
+					return clFail, nil, Mode{}, ""
+				case 2: // true
+					if (true != neg) == mode.Want {
+						return clSuccess, nil, Mode{}, ""
+					}
+					return clFail, nil, Mode{}, ""
+				}
+			}
 		}
 		return clMaybe, nil, Mode{}, condLabel(v, mode.Want)
 	default:
